@@ -293,6 +293,10 @@ def add_separate_output_edges(
                 if is_source_container and is_source_expanded:
                     # The deepest producer may sit inside a collapsed inner container
                     actual_producer = nearest_visible(output_to_producer.get(value_name, source), flat_graph, expansion_state)
+                    if actual_producer != source and not is_descendant_of(actual_producer, source, flat_graph):
+                        # The by-name producer map is global: an equally named output inside
+                        # another container must not stand in for this container's value
+                        actual_producer = source
                     data_value = value_name
                     if actual_producer == source:
                         internal_producer = find_internal_producer_for_output(source, value_name, flat_graph, expansion_state)
